@@ -381,6 +381,7 @@ func (x *Exec) coroCommand(st *State, c *callCtx, cv Value) []cmdOut {
 		return nil
 	}
 	kindName := x.storeKindName(kind)
+	st.trace = append(append([]string(nil), st.trace...), "cmd:"+kindName)
 	cs := cmdSpecByKind(kindName)
 	if cs == nil {
 		x.unsupported(st, "no command spec for kind "+kindName)
